@@ -12,6 +12,18 @@ CLAIMED = {
             "Solver verdict over every height inside each of the 65 eras (no height bound), every amount for the validator's limit; "
             "the supply total by exact integer arithmetic. Stronger than the exhaustive sweep the property asks for.",
             "Trusts z3/CrossHair's integer model; heights >= 0.", "DESIGN.md 4/C16"),
+    "C17": ("CrossHair symbolic execution of merkletree.py with an injective (tagged-identity) hash constructor",
+            "Solver verdict over all leaf values for every pair of list lengths <= 5 (quick) / <= 7 (thorough): equal roots imply equal "
+            "lists; root equals an independent reference construction; every proof (symbolic position) reproduces the root and contains the leaf.",
+            "sha256d idealised as an injective constructor (collision-freeness assumed); leaves are atoms. Lists longer than the bound are outside.",
+            "DESIGN.md 4/C17"),
+    "C07": ("CrossHair symbolic execution of the real encoders/decoders on a pure-Python stream (symbolic fields; symbolic byte strings; templates with symbolic positions)",
+            "Solver verdict per serializable type: encode->decode fieldwise for symbolic field values, decode->encode == consumed bytes for "
+            "symbolic byte strings (free strings <= 206 bytes for fixed layouts, <= 44 bytes for list-bearing ones; concrete templates with "
+            "<= 2 symbolic positions beyond that), id == H(canonical bytes); VLQ primitive for all values < 2^27/2^34 and all strings <= 6 bytes.",
+            "PyBytesIO stands in for io.BytesIO; sha256d is a tagged identity in symbolic runs (real sha256d in replay); 64-bit fields are a "
+            "16-bit symbolic window per byte offset; IPv6 addresses concrete; length prefixes > 3 octets only on the VLQ primitive.",
+            "DESIGN.md 4/C07"),
 }
 
 NOT_YET = "not claimed yet in this revision of /verif: the check is still being built (see DESIGN.md section 4 for the planned decision procedure)"
